@@ -259,4 +259,8 @@ def harnesses(world, tier, seed):
     ]
     if not q:
         hs.append(Validate(name='validate-3an', nan=3, nau=1, nad=0, types=('A', 'NS', 'CNAME'), qtypes=(1,), bounds={'reply': 'answers 3, authority 1'}, assumptions=('the reply holds at most one CNAME per owner name in its answer section',), expected_classes=('Answer', 'CNAME', 'Delegation')))
+    import modes
+    m = modes.harnesses_modes(q, 'C06'); m.name = 'recursive-mode-cache'; m.modes = (1,)
+    m.expected_classes = ('mode1:local-done', 'mode1:needs-upstream')
+    hs.append(m)
     return hs, (1500 if q else 5400), None
